@@ -265,12 +265,15 @@ def real_run(acc, seed, tag, dispatcher_name, nthreads, per_thread):
     from yowsup.layers.auth import YowAuthenticationProtocolLayer
     r = gen.rng(seed, ID, tag)
     disp = YowNetworkLayer.DISPATCHER_SOCKET if dispatcher_name == "socket" else YowNetworkLayer.DISPATCHER_ASYNCORE
-    srv = realnet.LoopServer()
+    slow = r.random() < 0.5
+    srv = realnet.LoopServer(slow_reader=slow)
     srv.start()
     c = realnet.RealClient("c11real_%s" % tag.replace("/", "_"), srv.port, disp)
     w = {"tag": tag, "dispatcher": dispatcher_name, "threads": nthreads, "per_thread": per_thread}
     acc.count("real_runs")
     acc.count("real:" + dispatcher_name)
+    acc.count("real_slow_reader" if slow else "real_fast_reader")
+    w["slow_reader"] = slow
     # thread switches injected at statement boundaries of the dispatchers and of asyncore itself (never inside a lock of ours)
     yp = r.choice([0.0, 0.1, 0.3, 0.5, 0.5])
     yi = inject.YieldInjector(random.Random(r.randrange(1 << 30)), ("dispatcher_asyncore.py", "dispatcher_socket.py", "asyncore/__init__.py", "network/layer.py"), p=yp) if yp else None
